@@ -630,6 +630,129 @@ impl BlockWorld {
     }
 }
 
+/// Blocked clients whose connection goes away in every way the server can notice it (orderly close, reset; with and
+/// without further commands held back behind the blocking call): once the connection has left the connection table no
+/// registry entry may name it, and an element pushed afterwards stays in the list.
+fn departing_blocked_cases() -> Value {
+    use super::c05::Harness;
+    use crate::resp;
+    let mut h = Harness::new(SrvOpts::default());
+    let mut recs = Vec::new();
+    let mut errors: Vec<String> = Vec::new();
+    let mut n = 0u64;
+    let calls: Vec<Vec<&str>> = vec![vec!["BLPOP", "k", "0"], vec!["BRPOP", "k", "5"], vec!["BLPOP", "k2", "k", "0"], vec!["BRPOP", "k", "k2", "0.5"]];
+    for call in calls.iter() {
+        for reset in [false, true] {
+            for held in [false, true] {
+                for second in [false, true] {
+                    n += 1;
+                    let name = format!("{}{}; {}; {}", call.join(" "), if held { " + ECHO x held back behind it" } else { "" }, if reset { "reset" } else { "close" }, if second { "a second client blocked on k stays" } else { "alone" });
+                    let mut run = || -> Result<Option<String>, String> {
+                        h.ensure()?;
+                        h.aux_call(&["FLUSHALL"])?;
+                        let mut c1 = h.srv.as_ref().unwrap().connect().map_err(|e| format!("connect: {:?}", e))?;
+                        let mut bytes = resp::cmd(call);
+                        if held {
+                            bytes.extend(resp::cmd(&["ECHO", "x"]));
+                        }
+                        c1.send(&bytes);
+                        let (got, err) = h.collect(&mut c1, 1, 4);
+                        if !got.is_empty() || err.is_some() {
+                            return Err(format!("the call did not block: {:?} {:?}", got.iter().map(resp::show).collect::<Vec<_>>(), err));
+                        }
+                        let mut c2 = None;
+                        if second {
+                            let mut c = h.srv.as_ref().unwrap().connect().map_err(|e| format!("connect: {:?}", e))?;
+                            c.send(&resp::cmd(&["BLPOP", "k", "0"]));
+                            let (g2, e2) = h.collect(&mut c, 1, 4);
+                            if !g2.is_empty() || e2.is_some() {
+                                return Err("the second call did not block".into());
+                            }
+                            c2 = Some(c);
+                        }
+                        let id = c1.id;
+                        if reset { c1.discard() } else { c1.close() }
+                        drop(c1);
+                        let mut gone = false;
+                        for _ in 0..40 {
+                            let _ = h.srv.as_ref().unwrap().steps(2);
+                            if !(h.srv.as_ref().unwrap().h.connections)().iter().any(|r| r.id == id) {
+                                gone = true;
+                                break;
+                            }
+                        }
+                        if !gone {
+                            if let Some(mut c) = c2.take() { c.discard(); }
+                            return Ok(Some("departed-connection-still-in-the-connection-table".into()));
+                        }
+                        let _ = h.srv.as_ref().unwrap().steps(2);
+                        let (waiters, _, _) = h.srv.as_ref().unwrap().h.blocking.verif_snapshot();
+                        let named = waiters.iter().any(|w| w.conn_id == id);
+                        h.aux_call(&["RPUSH", "k", "v"])?;
+                        let _ = h.srv.as_ref().unwrap().steps(3);
+                        let mut served_second = false;
+                        if let Some(c) = c2.as_mut() {
+                            let (g, _) = h.collect(c, 1, 4);
+                            served_second = g.len() == 1;
+                        }
+                        let left = h.aux_call(&["LLEN", "k"])?;
+                        if let Some(mut c) = c2.take() { c.discard(); }
+                        let _ = h.srv.as_ref().unwrap().steps(3);
+                        if named {
+                            return Ok(Some("registry-still-names-the-departed-connection".into()));
+                        }
+                        if second {
+                            if !served_second {
+                                return Ok(Some("the-client-that-stayed-was-not-served".into()));
+                            }
+                        } else if left != resp::R::Int(1) {
+                            return Ok(Some(format!("pushed-element-gone (LLEN {})", resp::show(&left))));
+                        }
+                        Ok(None)
+                    };
+                    match run() {
+                        Ok(Some(p)) => recs.push(json!({"name": name, "problem": p})),
+                        Ok(None) => {}
+                        Err(e) => {
+                            errors.push(format!("{}: {}", name, e));
+                            h.srv = None;
+                            h.aux = None;
+                        }
+                    }
+                }
+            }
+        }
+    }
+    json!({"departing": {"cases": n, "recs": recs, "errors": errors}})
+}
+
+fn extra_worker(_tier: &str, task: &Value, _io: &mut crate::pool::WorkerIo) -> Option<Value> {
+    if task.get("departing").is_some() {
+        return Some(departing_blocked_cases());
+    }
+    None
+}
+
+fn extra_parent(pool: &crate::pool::Pool, _tier: &str, report: &mut crate::report::RunReport) -> Value {
+    let out = pool.map(vec![json!({"departing": true})], 0);
+    match &out[0] {
+        crate::pool::Outcome::Done(v) => {
+            for e in v["departing"]["errors"].as_array().cloned().unwrap_or_default() {
+                report.machinery_errors.push(format!("departing blocked client: {}", e));
+            }
+            for r in v["departing"]["recs"].as_array().cloned().unwrap_or_default() {
+                report.deviations.push(crate::report::Deviation { property: "C13".into(), sig: format!("C13|departing-blocked-client|{}|{}", r["name"].as_str().unwrap_or(""), r["problem"].as_str().unwrap_or("").split(' ').next().unwrap_or("")), replay: json!({"kind": "departing", "case": r}) });
+            }
+            println!("  c13-departing: cases={} with-a-problem={}", v["departing"]["cases"], v["departing"]["recs"].as_array().map(|a| a.len()).unwrap_or(0));
+            json!({"departing_blocked_clients": {"cases": v["departing"]["cases"], "what": "4 blocking calls (one and two keys, endless and finite) x {alone, ECHO held back behind the call} x {close, reset} x {alone, a second client blocked on the same key stays}: once the connection has left the connection table no registry entry names it; an element pushed afterwards is still in the list (or goes to the client that stayed)"}})
+        }
+        crate::pool::Outcome::Died { status, .. } => {
+            report.machinery_errors.push(format!("departing-blocked-client worker died: {}", status));
+            json!({})
+        }
+    }
+}
+
 fn make_world(spec: &str) -> Option<Box<dyn World>> {
     match spec {
         "c13-core" => Some(Box::new(BlockWorld::new(false, 2, 1))),
@@ -659,9 +782,9 @@ fn prop() -> DataProp {
 }
 
 pub fn parent(tier: &str) -> i32 {
-    e1common::data_parent(&prop(), tier, None)
+    e1common::data_parent(&prop(), tier, Some(&extra_parent))
 }
 
 pub fn handle_factory() -> impl FnMut(&str, &Value, &mut crate::pool::WorkerIo) -> (Value, bool) {
-    e1common::data_handle_factory(make_world, None)
+    e1common::data_handle_factory(make_world, Some(extra_worker))
 }
